@@ -17,6 +17,61 @@ func init() {
 	suites["roundtrip"] = suiteRoundtrip
 	suites["c16"] = suiteC16
 	suites["c17"] = suiteC17
+	replayers["c17"] = replayC17
+}
+
+// replayC17 re-runs the three entry points (both reader flavours) on one prefix of the file of a finding.
+func replayC17(in map[string]any) int {
+	hs, _ := in["hex"].(string)
+	data := unhx(hs)
+	n := len(data)
+	if v, ok := in["prefix"].(float64); ok && int(v) >= 0 && int(v) <= len(data) {
+		n = int(v)
+	}
+	line := func(rd func([]byte) io.Reader, b []byte) string {
+		d, pm := guard(func() string {
+			im, err := webp.Decode(rd(b))
+			if err != nil {
+				return "err"
+			}
+			return digest(toNRGBA(im).Pix) + imgModelName(im) + im.Bounds().String()
+		})
+		c, pm2 := guard(func() string {
+			cf, err := webp.DecodeConfig(rd(b))
+			if err != nil {
+				return "err"
+			}
+			return fmt.Sprintf("ok cm=%s w=%d h=%d", cmName(cf.ColorModel), cf.Width, cf.Height)
+		})
+		f, pm3 := guard(func() string {
+			s := goFeatures(b)
+			if strings.HasPrefix(s, "err") {
+				return "err"
+			}
+			return s
+		})
+		return fmt.Sprintf("decode=%s%s | config=%s%s | features=%s%s", d, pm, c, pm2, f, pm3)
+	}
+	plain := func(b []byte) io.Reader { return bytes.NewReader(b) }
+	stream := func(b []byte) io.Reader { return streamOnly{bytes.NewReader(b)} }
+	full := line(plain, data)
+	fmt.Printf("full file (%d bytes):      %s\n", len(data), full)
+	rc := 0
+	for _, fl := range []struct {
+		name string
+		rd   func([]byte) io.Reader
+	}{{"bytes.Reader", plain}, {"reader without Len", stream}} {
+		got := line(fl.rd, data[:n:n])
+		fmt.Printf("prefix %d, %s: %s\n", n, fl.name, got)
+		gp, fp := strings.Split(got, " | "), strings.Split(full, " | ")
+		for k := range gp {
+			v := strings.SplitN(gp[k], "=", 2)[1]
+			if strings.HasPrefix(v, "panic") || (v != "err" && gp[k] != fp[k]) {
+				rc = 1
+			}
+		}
+	}
+	return rc
 }
 
 // genericImage hides the concrete type so that only At()/Bounds()/ColorModel() are available.
